@@ -418,7 +418,7 @@ fn aco_spec_strategy(max_iters: u32) -> impl Strategy<Value = RunSpec> {
 }
 
 pub fn run_all(ctx: &mut Ctx, replay: Option<&Path>) {
-    ctx.rule("runs: ant_system and max_min_ant_system (through the hook constructors) over TSP n 3-8, five distance-matrix kinds incl. ratios of 1e9, one city 1e150 away (so (1/d)^beta underflows) and distances in a unit of 1e-18 (tour lengths far below f64::EPSILON), ants 1-8, alpha/beta in [0,5], default pheromone in {1e-6, 1, 1e3}, evaporation in {0, 0.01, 0.5, 0.99, 1}, decay / min-max bounds, 1-200 iterations (so trails reach the underflow region), seeds; audited at every generation (ants + 1 tours, unevaluated, permutations of all cities starting at 0, first tour greedy w.r.t. the matrix observed before) and every pheromone update (entry-wise equal within 4 ulp to evaporate-then-reinforce computed from the matrix snapshot and the rewarded tours in the same order, symmetric increments, finite and >= 0, max-min: all off-diagonal entries within [min, max]); non-trivial = a run with an update in which >= 2 rewarded tours share an edge. components: generation (+ one update) on prepared matrices for n 2-9 and occasionally 33-130 and 520 cities (a pheromone matrix of more than 2^18 entries) (all zero, constant, values from 1e-300 to 1e6, one dominant row, subnormal); distinct by case");
+    ctx.rule("runs: ant_system and max_min_ant_system (through the hook constructors) over TSP n 3-8, five distance-matrix kinds incl. ratios of 1e9, one city 1e150 away (so (1/d)^beta underflows) and distances in a unit of 1e-18 (tour lengths far below f64::EPSILON), ants 1-8, alpha/beta in [0,5], default pheromone in {1e-6, 1, 1e3}, evaporation in {0, 0.01, 0.5, 0.99, 1}, decay / min-max bounds, 1-200 iterations (so trails reach the underflow region), seeds; audited at every generation (ants + 1 tours, unevaluated, permutations of all cities starting at 0, first tour greedy w.r.t. the matrix observed before) and every pheromone update (entry-wise equal within 4 ulp to evaporate-then-reinforce computed from the matrix snapshot and the rewarded tours in the same order, symmetric increments, finite and >= 0, max-min: all off-diagonal entries within [min, max]); one run in five audited on the state left behind by a run on an instance of another size; non-trivial = a run with an update in which >= 2 rewarded tours share an edge. components: generation (+ one update; the current population holding a placeholder, nothing, or more evaluated tours than the colony has ants beforehand) on prepared matrices for n 2-9 and occasionally 33-130 and 520 cities (a pheromone matrix of more than 2^18 entries) (all zero, constant, values from 1e-300 to 1e6, one dominant row, subnormal); distinct by case");
     ctx.assume("tour length = the problem's objective value of the tour (the harness TSP objective is the closed tour length + 1, strictly positive)");
     let r = AcoRunCheck;
     let d = DirectCheck;
